@@ -912,15 +912,21 @@ def from_text(
                 grdata = GenericRdata.from_text(
                     rdclass, rdtype, tok, origin, relativize, relativize_to
                 )
+                # Names in the wire form are relativized the way names in the
+                # ordinary text form would be.
+                if relativize:
+                    rorigin = relativize_to or origin
+                else:
+                    rorigin = None
                 rdata = from_wire(
-                    rdclass, rdtype, grdata.data, 0, len(grdata.data), origin
+                    rdclass, rdtype, grdata.data, 0, len(grdata.data), rorigin
                 )
                 #
                 # If this comparison isn't equal, then there must have been
                 # compressed names in the wire format, which is an error,
                 # there being no reasonable context to decompress with.
                 #
-                rwire = rdata.to_wire()
+                rwire = rdata.to_wire(origin=rorigin)
                 if rwire != grdata.data:
                     raise dns.exception.SyntaxError(
                         "compressed data in "
